@@ -1202,7 +1202,38 @@ pub fn gen_tls_lazy(rng: &mut Rng) -> Program {
 // ------------------------------------------------------------------------------------------
 // futures family (C20): one thread blocks on a future, 1-2 threads set the flag and wake
 
+/// two threads each set their own flag and wake the future through their own clone of its waker
+fn gen_future_two_wakers(rng: &mut Rng) -> Program {
+    let mut vs = ValueSrc::new();
+    let mut p = Program { atomics: vec![0, 0], ..Default::default() };
+    let o_s = *rng.pick(&[MO::Rlx, MO::Rlx, MO::Rel, MO::Sc]);
+    let o_l = *rng.pick(&[MO::Rlx, MO::Rlx, MO::Acq, MO::Sc]);
+    let (va, vb) = (vs.constant(), vs.constant());
+    let mut t1 = vec![Op::Store { a: 0, v: va, o: o_s }, Op::SlotWake { i: 0, by_ref: rng.chance(1, 2) }];
+    let mut t2 = vec![Op::Store { a: 1, v: vb, o: o_s }, Op::SlotWake { i: 1, by_ref: rng.chance(1, 2) }];
+    if rng.chance(1, 4) {
+        t1.push(Op::SlotWake { i: 0, by_ref: false });
+    }
+    if rng.chance(1, 6) {
+        t2.insert(0, Op::SlotWake { i: 1, by_ref: true });
+    }
+    let mut t0 = vec![Op::Spawn { t: 1 }, Op::Spawn { t: 2 }, Op::BlockOn2 { a: 0, va, b: 1, vb, o: o_l }];
+    if rng.chance(1, 2) {
+        t0.push(Op::Load { a: 1, o: MO::Rlx });
+    }
+    t0.push(Op::Join { t: 1 });
+    t0.push(Op::Join { t: 2 });
+    // consume whatever waker clones are left in the slots (a leftover clone is a leaked Arc)
+    t0.push(Op::SlotWake { i: 0, by_ref: false });
+    t0.push(Op::SlotWake { i: 1, by_ref: false });
+    p.threads = vec![t0, t1, t2];
+    p
+}
+
 pub fn gen_future(rng: &mut Rng) -> Program {
+    if rng.chance(1, 4) {
+        return gen_future_two_wakers(rng);
+    }
     let mut vs = ValueSrc::new();
     let n_wakers = rng.range(1, 2);
     let nt = n_wakers + 1;
